@@ -33,6 +33,14 @@ def spec_cases(chk, label):
     return cases
 
 
+def _i(x):
+    """int of a decoded field; whatever cannot be one compares unequal to every expectation"""
+    try:
+        return int(x)
+    except Exception:
+        return -1
+
+
 def _full_dict(c):
     d = {k: unnum(v) for k, v in c["dict"].items()}
     d["opcode"] = c["opv"]
@@ -142,10 +150,10 @@ def replay(chk, cases, want, sets_of=None):
                 base = {"cls": name, "set": s, "args": a, "dict": d, "what": "MC_T10Cdb case (constructor, then codec)"}
                 try:
                     out = cmd.unmarshall_cdb(bytearray(cmd.cdb))
-                    bad = sorted(k for k in d if k in out and int(out[k]) != d[k])
+                    bad = sorted(k for k in d if k in out and _i(out[k]) != d[k])
                     if bad:
                         chk.violation(dict(base, clause="DecEnc", field=",".join(bad),
-                                           detail={"expected": {k: d[k] for k in bad}, "observed": {k: int(out[k]) for k in bad}}),
+                                           detail={"expected": {k: d[k] for k in bad}, "observed": {k: _i(out[k]) for k in bad}}),
                                       dedup=("DecEnc", name, "ctor", ",".join(bad)))
                     first = bytes(cmd.cdb)
                     again = bytes(cmd.build_cdb(**d))
@@ -191,11 +199,11 @@ def replay(chk, cases, want, sets_of=None):
                     chk.violation(dict(base, clause="CodecRaised", field="", detail={"raised": type(ex).__name__}),
                                   dedup=("CodecRaised", name, type(ex).__name__))
                     continue
-                bad = sorted(k for k in d if k in out and int(out[k]) != d[k])
+                bad = sorted(k for k in d if k in out and _i(out[k]) != d[k])
                 missing = sorted(k for k in d if k not in out)
                 if bad:
                     chk.violation(dict(base, clause="DecEnc", field=",".join(bad),
-                                       detail={"expected": {k: d[k] for k in bad}, "observed": {k: int(out[k]) for k in bad}}),
+                                       detail={"expected": {k: d[k] for k in bad}, "observed": {k: _i(out[k]) for k in bad}}),
                                   dedup=("DecEnc", name, ",".join(bad)))
                 if missing:
                     chk.violation(dict(base, clause="DecodeReportsEveryField", field=",".join(missing), detail={}),
